@@ -12,7 +12,7 @@ reg("C11",
                  "Properties/C11.v", "Check/C10_Check.v", "Check/C11_Check.v"],
     codes={1: "model-mismatch", 2: "property-checker-rejects-impl", 3: "mismatch+property",
            4: "run-did-not-return", 5: "handler-called-after-return-or-wrong-cursor"},
-    n_quick=420, n_thorough=9600, n_escalate=2000,
+    n_quick=1300, n_thorough=9600, n_escalate=2000,
     rule="one fault site per run over generated layouts (bundle size 1-12, 1-3 bundles, skipped numbers, legacy leading "
          "block, start mid-file, any stop block): FileExists failing 1/4 (masked) or 5/7 (persistent) times, OpenObject, "
          "header (bad magic / unsupported version / truncated), each Read incl. the EOF read (storage error at / inside the "
